@@ -26,6 +26,8 @@ def td_cases(draw, cfg: Optional[dict] = None, n_data=(4, 10), coerce=False, mix
              data_fn=None):
     prog = draw(gen.programs(cfg))
     opts = draw(options(coerce=coerce))
+    if (cfg or {}).get("root_schema"):
+        draw_root_schema(draw, prog, opts)
     n = draw(st.integers(*n_data))
     data = []
     for _ in range(n):
@@ -37,6 +39,21 @@ def td_cases(draw, cfg: Optional[dict] = None, n_data=(4, 10), coerce=False, mix
     return {"prog": prog, "opts": opts, "data": data}
 
 
+def draw_root_schema(draw, prog, opts, rate=0.2):
+    """With probability `rate`, constraints passed per call (schema= of deserialize / deserialization_schema) for the
+    root type, stored in opts["root_schema"]."""
+    if chance(draw, rate):
+        base = M.strip(prog["root"], prog)["k"]
+        kind = {"int": "int", "float": "float", "str": "str", "list": "array", "vartuple": "array", "set": "array", "map": "object"}.get(base)
+        if kind:
+            c = gen.TypeGen(draw, {"explicit_unique": False}).constraints(kind)
+            if c:
+                c.pop("pattern", None)
+                c.pop("mult_of", None)
+            if c:
+                opts["root_schema"] = c
+
+
 def api_kwargs(opts: dict) -> dict:
     kw: Dict[str, Any] = {
         "additional_properties": bool(opts.get("additional_properties")),
@@ -45,7 +62,16 @@ def api_kwargs(opts: dict) -> dict:
     }
     if opts.get("coerce"):
         kw["coerce"] = True
+    if opts.get("root_schema"):
+        import apischema
+
+        kw["schema"] = apischema.schema(**opts["root_schema"])
     return kw
+
+
+def sub_kwargs(kw: dict) -> dict:
+    """api kwargs for a node below the root (the per-call schema concerns the root only)."""
+    return {k: v for k, v in kw.items() if k != "schema"}
 
 
 def describe(case: dict) -> str:
@@ -148,13 +174,31 @@ def children(prog: dict, t: dict, d: Any, dyn: str, c: Optional[dict] = None):
         return [(t["val"], x, None) for x in d.values()] + [(t["key"], key, None) for key in d if isinstance(key, str)]
     if k == "cls" and isinstance(d, dict):
         cd = prog["classes"][t["i"]]
+        if t.get("args"):
+            cd = M.specialize(cd, t["args"])
         out = []
+        taken = set()
         for f in M.des_fields(cd):
             if f.get("agg") is None:
                 key = M.ext_name(f, cd, dyn)
+                taken.add(key)
                 if key in d:
                     ft = M.remove_none(f["t"]) if f.get("none_as_undefined") else f["t"]
                     out.append((ft, d[key], f.get("c")))
+        # items taken by pattern / additional-properties fields: their value (and key) against the mapping's types
+        import re as _re
+        rest = [key for key in d if key not in taken and isinstance(key, str)]
+        for f in M.des_fields(cd):
+            agg = f.get("agg")
+            mt = M.strip(f["t"], prog)
+            if mt["k"] != "map" or agg in (None, "flatten"):
+                continue
+            keys = [key for key in rest if _re.search(agg["pattern"], key)] if isinstance(agg, dict) else rest
+            for key in keys:
+                out.append((mt["val"], d[key], None))
+                out.append((mt["key"], key, None))
+            if isinstance(agg, dict):
+                rest = [key for key in rest if key not in keys]
         return out
     return []
 
